@@ -1,7 +1,7 @@
 #!/venv/bin/python
 """Build every proof with EVERY anchor forced to its committed fallback definition (in a scratch copy of /verif): a
 proof that only goes through for the freshly translated text of an anchor would turn a harmless refactor (anchor falls
-back) into an alarm.  usage: fallback_build.py"""
+back) into an alarm.  usage: fallback_build.py [module ...]"""
 import os, sys, subprocess, tempfile, shutil
 V = os.path.dirname(os.path.dirname(os.path.abspath(__file__)))
 tmp = tempfile.mkdtemp(prefix='vfb_')
@@ -13,7 +13,8 @@ try:
     names = {n for n, _, _ in extract.ANCHORS}
     text, st = extract.generate(os.environ.get('XYZ_REPO', '/repo'), force_fallback=names)
     open(os.path.join(tmp, 'lean', 'XyzModel', 'Gen', 'Extracted.lean'), 'w').write(text)
-    r = subprocess.run(['lake', 'build', 'XyzModel', 'XyzProofs'], cwd=os.path.join(tmp, 'lean'), capture_output=True, text=True)
+    targets = sys.argv[1:] or ['XyzModel', 'XyzProofs']          # optional: only these modules
+    r = subprocess.run(['lake', 'build'] + targets, cwd=os.path.join(tmp, 'lean'), capture_output=True, text=True)
     bad = [l for l in r.stdout.split('\n') if l.startswith('error') or '✖' in l]
     print(f'{len(names)} anchors forced to fall back; build', 'OK' if r.returncode == 0 else 'FAILED')
     print('\n'.join(bad[:40]))
